@@ -19,13 +19,15 @@ static void init_hv() {
   HV.push_back({"missing", nullptr, JWT_ALG_NONE});
   HV.push_back({"num", "1", JWT_ALG_NONE}); HV.push_back({"null", "null", JWT_ALG_NONE});
   HV.push_back({"array", "[\"HS256\"]", JWT_ALG_HS256}); HV.push_back({"object", "{\"a\":\"RS256\"}", JWT_ALG_RS256});
+  // appended later (indices of the entries above are referenced by saved replay files: append only)
+  HV.push_back({"none-nul-HS256", "\"none\\u0000HS256\"", JWT_ALG_NONE}); HV.push_back({"HS256-nul", "\"HS256\\u0000x\"", JWT_ALG_HS256}); HV.push_back({"ES256-nul", "\"ES256\\u0000\"", JWT_ALG_ES256});
 }
 static bool hv_exact(const HeaderVar &h, jwt_alg_t a) {  // header names exactly algorithm a
   const char *n = jwt_alg_str(a); if (!n || !h.alg_json) return false; return std::string("\"") + n + "\"" == h.alg_json;
 }
 
-enum SigKind { S_ABSENT, S_GARBAGE, S_ATT_EMPTY, S_ATT_PEM, S_ATT_RAW, S_ATT_OWN, S_REALKEY, S_NKINDS };
-static const char *SK[] = {"absent", "garbage", "att-empty-hmac-key", "att-pubpem-hmac-key", "att-rawpub-hmac-key", "att-own-keypair", "real-key"};
+enum SigKind { S_ABSENT, S_GARBAGE, S_ATT_EMPTY, S_ATT_PEM, S_ATT_RAW, S_ATT_OWN, S_REALKEY, S_NATIVE, S_NKINDS };
+static const char *SK[] = {"absent", "garbage", "att-empty-hmac-key", "att-pubpem-hmac-key", "att-rawpub-hmac-key", "att-own-keypair", "real-key", "real-key-native-alg-under-other-header"};
 
 struct KeyCfg { const KeySpec *k; std::string attr; bool has_attr; jwt_alg_t attr_alg; LKey priv, pub; std::string label; };
 static std::vector<std::unique_ptr<KeyCfg>> KC;
@@ -101,6 +103,10 @@ static std::string make_token(const KeySpec &k, const HeaderVar &h, int sk) {
   case S_ATT_RAW: if (!bi || bi->kind != K_OCT || k.kind == K_OCT) return ""; return in + "." + b64u_enc(ref_hmac(raw_pub(k), bi->md, in));
   case S_ATT_OWN: { if (!bi || bi->kind == K_OCT) return ""; const KeySpec *ak = attacker_for(b); std::string s = ref_sign(*ak, b, in); return s.empty() ? "" : in + "." + b64u_enc(s); }
   case S_REALKEY: { if (!bi) return ""; if (bi->kind != k.kind) return ""; std::string s = ref_sign(k, b, in); return s.empty() ? "" : in + "." + b64u_enc(s); }
+  case S_NATIVE: {   // signed by the real key with an algorithm of ITS family although the header names an algorithm of another family
+      if (!bi || bi->kind == k.kind) return "";
+      jwt_alg_t na = k.kind == K_OCT ? JWT_ALG_HS256 : k.kind == K_RSA ? JWT_ALG_RS256 : k.kind == K_OKP ? JWT_ALG_EDDSA : k.bits == 384 ? JWT_ALG_ES384 : k.bits == 521 ? JWT_ALG_ES512 : JWT_ALG_ES256;
+      std::string s = ref_sign(k, na, in); return s.empty() ? "" : in + "." + b64u_enc(s); }
   }
   return "";
 }
@@ -387,7 +393,7 @@ int main(int argc, char **argv) {
           for (int hv = 0; hv < (int)HV.size(); hv++) {
             for (int sk = 0; sk < S_NKINDS; sk++) {
               const KeySpec &ks = kc ? *kc->k : nokey_dummy;
-              if (!kc && (sk == S_ATT_PEM || sk == S_ATT_RAW)) continue;
+              if (!kc && (sk == S_ATT_PEM || sk == S_ATT_RAW || sk == S_NATIVE)) continue;
               if (PROP_C03 && !(sk == S_ABSENT || sk == S_GARBAGE || sk == S_REALKEY || HV[hv].base == JWT_ALG_NONE)) continue;
               const std::string &tok = token_for(kci, ks, hv, sk);
               if (tok.empty()) continue;
